@@ -643,6 +643,14 @@ def r6(ctx):
     ctx.floor("C09.R6", 2)
 
 
+def r7(ctx):
+    """"signed entries ... keep their pinned byte encodings": the canonical bytes that are signed and verified (= C03.R4's layout
+    clause: identifier, big-endian length, hash, big-endian timestamp)"""
+    from . import C03
+    C03.canonical_layout(ctx, "C09.R7")
+    ctx.floor("C09.R7", 1)
+
+
 def run(ctx):
     ctx.run_rule("C09.R1", r1)
     ctx.run_rule("C09.R2", r2)
@@ -650,3 +658,4 @@ def run(ctx):
     ctx.run_rule("C09.R4", r4)
     ctx.run_rule("C09.R5", r5)
     ctx.run_rule("C09.R6", r6)
+    ctx.run_rule("C09.R7", r7)
